@@ -872,6 +872,14 @@ def oracle_C06(objs, st=None):
     """nfp = k declared as nfp = 1 with harmonics interleaved with zeros, at k times the resolution (odd k keep the grid odd)"""
     st = st or Stats()
     objs = list(objs) + qh_cases()[:2]
+    try:        # a stellarator-symmetric quasi-helical configuration at third order (for the shear clause)
+        import inputs as _inp0
+        from qsc import Qsc as _Q0
+        kws = {k: (list(v) if isinstance(v, (list, np.ndarray)) else v) for k, v in _inp0.named_kwargs('2022 QH nfp3 vacuum').items()}
+        kws.update(nphi=15, order='r3')
+        objs.append((dict(kind='named', name='2022 QH nfp3 vacuum', kwargs=kws), _Q0(**kws), None))
+    except Exception:
+        pass
     # other descriptions of each configuration, on which index-sensitive code behaves differently in the two declarations:
     # seen from half a period away and mirrored in Z (the axis normal then points outward at phi = 0 and its quadrant
     # sequence wraps at the period boundary), and with the origin placed so that a profile extremum falls on the LAST
@@ -933,6 +941,14 @@ def oracle_C06(objs, st=None):
             return v
         compare_profiles(q, q1, mp, 1e-7, st, 'field-period representation: nfp=k equals nfp=1 at k times the resolution', cid, skip=('grad_B_tensor',))
         st.check('helicity per period multiplies by k, iotaN = iota + helicity*nfp unchanged', abs(q1.helicity - kq * q.helicity) + abs(q1.iotaN - q.iotaN) / (1 + abs(q.iotaN)), 1e-8, cid)
+        if q.order == 'r3' and q.sigma0 == 0 and not np.any(q.rs) and not np.any(q.zc):
+            # the magnetic shear (symmetric branch: spectral integral) does not see the declared number of field periods
+            try:
+                qa_, qb_ = _copy.copy(q), _copy.copy(q1)
+                qa_.calculate_shear(); qb_.calculate_shear()
+                st.check('iota2 is the same in both declarations', abs(qa_.iota2 - qb_.iota2) / (abs(qa_.iota2) + 1e-300), 1e-6, cid, detail=dict(nfp_k=qa_.iota2, nfp_1=qb_.iota2))
+            except Exception:
+                pass
         if q.order != 'r1':
             st.check('total helicity N = iota - iotaN is the same in both descriptions', abs(q1.N_helicity - q.N_helicity) + abs((q.iota - q.iotaN) - q.N_helicity), 1e-8, cid)
         # the evaluators must not see the declared number of field periods either (whole torus, both toroidal-angle conventions)
@@ -1052,7 +1068,7 @@ def oracle_C07(objs, st=None):
         kwa = dict(dict(rc=[1, 0.05], zs=[0, -0.05], nfp=2, etabar=0.9, order='r1', nphi=15), **kwx)
         qa = Qsc(**kwa)
         st.check('asymmetric input is reported asymmetric, symmetric input symmetric', float(bool(qa.lasym) != (what != 'symmetric')), 0.0, dict(kind='synth', kwargs=kwa, asymmetry=what))
-    for what, kwx in (('B2s < 0 only', dict(B2s=-0.2)), ('B2s > 0 only', dict(B2s=0.2))):
+    for what, kwx in (('B2s < 0 only', dict(B2s=-0.2)), ('B2s > 0 only', dict(B2s=0.2)), ('B2s < 0 only, third order', dict(B2s=-0.2, order='r3')), ('B2s > 0 only, third order', dict(B2s=0.2, order='r3'))):
         kwa = dict(dict(rc=[1, 0.05], zs=[0, -0.05], nfp=2, etabar=0.9, B2c=0.1, order='r2', nphi=15), **kwx)
         qa = Qsc(**kwa)
         st.check('asymmetric input is reported asymmetric, symmetric input symmetric', float(not bool(qa.lasym)), 0.0, dict(kind='synth', kwargs=kwa, asymmetry=what))
@@ -1089,6 +1105,11 @@ def oracle_C19(objs, st=None):
         st.distinct.add(json_key(c))
         q.calculate_shear()
         i2 = q.iota2
+        before_ = {k: (v.copy() if isinstance(v, np.ndarray) else v) for k, v in numeric_attrs(q).items()}
+        q.calculate_shear(); q.calculate_shear(0.0)
+        after_ = numeric_attrs(q)
+        changed_ = [k for k in before_ if k in after_ and not np.array_equal(np.asarray(before_[k]), np.asarray(after_[k]), equal_nan=True)]
+        st.check('iota2 is the same on every call and the call changes nothing else on the object', float(len(changed_)) + abs(q.iota2 - i2) / (abs(i2) + 1e-300), 0.0, cid, detail=dict(changed=changed_[:6], first=i2, third=q.iota2))
         def shear(kw):
             qq = build(kw); qq.calculate_shear(); return qq.iota2, qq
         lam, cc = 1.7, 2.3
@@ -1411,12 +1432,10 @@ def parse_namelist(path):
     return vals, modes
 
 
-def oracle_C15(objs, st=None):
+def export_independence(objs, st):
+    """exports are independent of earlier exports: a call that leaves `params` to its default must write what the same call
+    writes when it is given a fresh dictionary, whatever was exported before in this process (other object, other ntheta)"""
     import tempfile
-    st = st or Stats()
-    rng = np.random.default_rng(15)
-    # exports are independent of earlier exports: a call that leaves `params` to its default must write what the same call
-    # writes when it is given a fresh dictionary, whatever was exported before in this process (other object, other ntheta)
     def _body(fn_):
         return [l for l in open(fn_).read().split('\n') if 'Date' not in l and 'date' not in l]
     for k_, (c, q, cap) in enumerate(objs[:3]):
@@ -1433,6 +1452,23 @@ def oracle_C15(objs, st=None):
             a_, b_ = _body(_os.path.join(tmp, 'second')), _body(_os.path.join(tmp, 'fresh'))
         st.check('an export does not depend on earlier exports (default params)', float(a_ != b_), 0.0, cid,
                  detail=next((dict(default=x, fresh=y) for x, y in zip(a_, b_) if x != y), None))
+    return st
+
+
+def oracle_C15(objs, st=None):
+    import tempfile
+    st = st or Stats()
+    rng = np.random.default_rng(15)
+    export_independence(objs, st)
+    # configurations whose only asymmetry is B2s (second order and higher), at both orders that have it
+    objs = list(objs)
+    from qsc import Qsc as _Q15
+    for o_ in ('r2', 'r3'):
+        kw_ = dict(rc=[1, 0.05], zs=[0, -0.05], nfp=2, etabar=0.9, B2c=0.1, B2s=0.25, B0=1.1, order=o_, nphi=15)
+        try:
+            objs.append((dict(kind='synth', kwargs=kw_), _Q15(**kw_), None))
+        except Exception:
+            pass
     for c, q, cap in objs:
         cid = case_id(c)
         st.distinct.add(json_key(c))
@@ -1500,6 +1536,28 @@ def oracle_C18(objs, st=None):
         a1, a2 = numeric_attrs(q), numeric_attrs(qe)
         bad = [k for k in a1 if k in a2 and not np.array_equal(arr(a1[k]), arr(a2[k]), equal_nan=True)]
         st.check('an even nphi gives exactly the result of nphi + 1', float(len(bad)), 0.0, cid, detail=dict(differing=bad[:5]))
+        # ... whatever integer type carries it (a grid size read from an array, a file, np.arange, ...)
+        for ty in (np.int64, np.int32):
+            kwt = dict(kw); kwt['nphi'] = ty(n - 1)
+            try:
+                qt = build(kwt)
+                at = numeric_attrs(qt)
+                badt = [k for k in a1 if k in at and not np.array_equal(arr(a1[k]), arr(at[k]), equal_nan=True)] + ([] if qt.nphi == n else ['nphi'])
+            except Exception as ex:
+                badt = ['constructor raised %s' % type(ex).__name__]
+            st.check('an even nphi gives exactly the result of nphi + 1', float(len(badt)), 0.0, dict(cid, nphi_type=ty.__name__, nphi=int(n - 1)), detail=dict(differing=badt[:5]))
+    # the magnetic shear of a NON-symmetric configuration is integrated by the trapezoid rule: second order (the successive
+    # changes fall by about 4 per doubling; a first-order end-point error would make it 2)
+    from qsc import Qsc as _Q18
+    for kw18 in (dict(name='2022 QH nfp3 vacuum', sigma0=0.15), dict(name='r2 section 5.4', sigma0=-0.1, sG=-1)):
+        nm18 = kw18.pop('name')
+        v18 = []
+        for n18 in (31, 61, 121, 241):
+            q18 = _Q18.from_paper(nm18, nphi=n18, order='r3', **kw18); q18.calculate_shear(); v18.append(float(q18.iota2))
+        d18 = [abs(v18[j + 1] - v18[j]) for j in range(3)]
+        ratio = d18[1] / d18[2] if d18[2] > 0 else float('inf')
+        st.check('trapezoid-integrated shear converges at second order (ratio of successive changes >= 3)', 0.0 if (ratio >= 3.0 or d18[2] <= 1e-9 * abs(v18[-1])) else 3.0 - ratio, 0.0,
+                 dict(kind='named', name=nm18, kwargs=dict(kw18, name=nm18, order='r3'), ladder=[31, 61, 121, 241]), detail=dict(values=v18, changes=d18, ratio=ratio))
     # spectral convergence: once two successive rungs agree to 1e-10, every later rung must agree with them to 1e-8
     # (solved scalars, arclength integrals, extrema of the trigonometric interpolant); named configurations, whose
     # spectra decay fast enough to be resolved on this ladder
@@ -1591,6 +1649,19 @@ def oracle_C20(st=None, seed=0, thorough=False):
         xk = np.arange(N) * 2 * np.pi / N
         fk = rng.normal(size=N)
         st.check('interpolant reproduces the samples at the nodes', np.max(np.abs(fourier_interpolation(fk, xk) - fk)), 1e-9 * max(1.0, np.max(np.abs(fk))), cid)
+        # ... in whatever order, repetition and company the abscissae come (each value depends on its own abscissa only)
+        perm = rng.permutation(N)
+        xs_ = np.concatenate((xk[perm], xk[perm[:2]], [0.123, xk[perm[0]] + 2 * np.pi, 4.0]))
+        def fi_(xx):
+            try:
+                return np.asarray(fourier_interpolation(fk, np.asarray(xx, float)), float)
+            except Exception:
+                return np.full(len(xx), np.nan)
+        whole = fi_(xs_)
+        single = np.array([fi_([x_])[0] for x_ in xs_])
+        st.check('interpolated values do not depend on the order, repetition or company of the abscissae', float(np.max(np.abs(whole - single))) if np.all(np.isfinite(whole)) else float('inf'),
+                 1e-9 * max(1.0, np.max(np.abs(fk))), dict(cid, abscissae='all nodes shuffled, two repeated, one node shifted by a period, two off-grid points'))
+        st.check('interpolant reproduces the samples at the nodes', float(np.max(np.abs(whole[:N] - fk[perm]))) if np.all(np.isfinite(whole)) else float('inf'), 1e-9 * max(1.0, np.max(np.abs(fk))), dict(cid, order='shuffled'))
         p = int(rng.integers(0, (N + 1) // 2)) if N > 1 else 0
         if 2 * p < N:
             ph = float(rng.uniform(0, 6.28)); xx = rng.uniform(-10, 10, size=7)
@@ -1921,7 +1992,9 @@ def oracle_history(objs, st=None, seed=0, label=''):
     evaluator / export results as a fresh object constructed from those parameters."""
     st = st or Stats()
     rng = np.random.default_rng(1000 + seed)
-    for idx, (c, q0, cap) in enumerate(objs):
+    for idx0, (c, q0, cap) in enumerate(objs):
+      for rep in range(3):        # three different kinds of history per object (all eight kinds met with three objects)
+        idx = idx0 + 3 * rep
         q = _copy.deepcopy(q0)
         # first use every evaluator once on the ORIGINAL parameters (so that caches, if any, are populated)
         r_fix = evaluator_radius(q0)
@@ -1931,7 +2004,8 @@ def oracle_history(objs, st=None, seed=0, label=''):
             pass
         nf = q.nfourier
         x = q.get_dofs().copy()
-        kind = (idx + seed) % 5          # the five kinds of history are cycled over the objects
+        kind = (idx + seed) % 8          # the kinds of history are cycled over the objects
+        via_attributes = None
         if kind == 0:      # new field unit only (axis unchanged): B0, I2, B2s, B2c times c, p2 times c^2
             cc = float(rng.choice([0.6, 1.4, 2.5]))
             x[4 * nf + 6] *= cc; x[4 * nf + 5] *= cc; x[4 * nf + 2] *= cc; x[4 * nf + 3] *= cc; x[4 * nf + 4] *= cc * cc
@@ -1946,12 +2020,31 @@ def oracle_history(objs, st=None, seed=0, label=''):
         elif kind == 2:    # mirror twin (helicity changes sign for quasi-helical configurations)
             x[nf:2 * nf] *= -1; x[3 * nf:4 * nf] *= -1; x[4 * nf + 1] *= -1; x[4 * nf + 2] *= -1; x[4 * nf + 5] *= -1
             what = 'set_dofs: mirror twin'
+        elif kind == 5:    # parameters that are not degrees of freedom, changed by assignment + calculate(): the sign flags
+            via_attributes = dict(sG=-q.sG) if (idx + seed) % 2 == 0 else dict(spsi=-q.spsi)
+            what = 'attribute assignment %r; calculate()' % (via_attributes,)
+        elif kind == 6:    # ... and the number of field periods
+            via_attributes = dict(nfp=int(q.nfp) + 1)
+            what = 'attribute assignment %r; calculate()' % (via_attributes,)
+        elif kind == 7:    # the symmetry class changes: a symmetric object becomes asymmetric through its DOFs, or the reverse
+            symmetric = not (np.any(x[2 * nf:4 * nf]) or x[4 * nf + 1] != 0 or x[4 * nf + 2] != 0)
+            if symmetric:
+                x[2 * nf + (1 if nf > 1 else 0)] = -0.003 * abs(x[0]); x[3 * nf + (1 if nf > 1 else 0)] = -0.002 * abs(x[0])
+                what = 'set_dofs: symmetric -> asymmetric (rs, zc < 0)'
+            else:
+                x[2 * nf:4 * nf] = 0.0; x[4 * nf + 1] = 0.0; x[4 * nf + 2] = 0.0
+                what = 'set_dofs: asymmetric -> symmetric'
         else:              # everything perturbed a little
             x = x * (1 + 0.03 * rng.normal(size=x.size)); x[0] = abs(x[0]); x[4 * nf + 6] = abs(x[4 * nf + 6]) + 0.05
             what = 'set_dofs: all parameters perturbed'
         cid = dict(case_id(c), history=['every evaluator once', what])
         try:
-            q.set_dofs(x)
+            if via_attributes is not None:
+                for k_, v_ in via_attributes.items():
+                    setattr(q, k_, v_)
+                q.calculate()
+            else:
+                q.set_dofs(x)
         except Exception as ex:
             continue
         if not np.all(np.isfinite(q.sigma)):
@@ -1969,6 +2062,8 @@ def oracle_history(objs, st=None, seed=0, label=''):
                     worst, wn = d, k
         st.distinct.add(json_key(c) + what)
         st.check('after a call history the stored outputs equal those of a fresh object built from the current parameters' + label, worst, 1e-12, cid, detail=dict(worst_attribute=wn))
+        flags = [k_ for k_ in ('lasym', 'helicity', 'order', 'nfp', 'nphi', 'sG', 'spsi') if getattr(q, k_, None) != getattr(f, k_, None)]
+        st.check('after a call history the flags (lasym, helicity, ...) equal those of a fresh object' + label, float(len(flags)), 0.0, cid, detail=dict(differing=flags))
         try:
             # the call that came last before the change comes first after it (a one-entry cache keyed on the arguments only)
             ea, eb = evaluator_outputs(q, r=r_fix, first=idx + seed + 1, reverse=True), evaluator_outputs(f, r=r_fix)
